@@ -273,8 +273,8 @@ func TestC03Foreign(t *testing.T) { checkProp(t, "C03", "foreign", genC03Foreign
 type C03Race struct {
 	Kind  int         `json:"kind"` // client or bidi
 	Ret   kit.ErrSpec `json:"ret"`
-	Read  int         `json:"read"`  // messages the handler reads before returning
-	Late  int         `json:"late"`  // bodies the caller sends after the handler returned (>=1)
+	Read  int         `json:"read"` // messages the handler reads before returning
+	Late  int         `json:"late"` // bodies the caller sends after the handler returned (>=1)
 	Ser   bool        `json:"ser"`
 	Extra int         `json:"extra"` // bystander unary calls
 }
